@@ -324,7 +324,7 @@ def task_header_write_padding(scratch, tier, seed, logdir):
             return None
 
         models = [(r"to_string$", m_to_string), (r"String::len$|str::len$", m_len), (r"header_len_bytes_len$", m_hlb),
-                  (r"as Try>::branch$", None), (r"from_elem", m_from_elem), (r"IndexMut<usize>>::index_mut$", m_index_mut)]
+                  (r"as Try>::branch$", None), (r"IndexMut<usize>>::index_mut$", m_index_mut)]
         models = [(p, h) for p, h in models if h]
         ex = mir.Exec(f, models, max_paths=400)
         paths = ex.run({"_1": ("ref", "$self"), "$self": V("hdr", "U"), "_2": ("ref", "$w"), "$w": V("w", "U")})
@@ -385,6 +385,24 @@ def task_header_write_padding(scratch, tier, seed, logdir):
             r, o = ob.run(script, "unsat", 30)
             if r == "sat":
                 ob.fail("violation", f"no room for the terminating newline (pad_len = 0): {' '.join(o.split()[1:])[:120]}", model=o)
+        # what is written on a successful path: magic, version, length field, dict text, then the
+        # padding (spaces) terminated by a newline
+        for p in ok_paths:
+            if "from_residual" in show(p.ret):
+                continue
+            seq = [e for e in p.state.events if re.search(r"Write>::write_all$|write_header_len(::<.*>)?$", e[0])]
+            kinds = ["hl" if "write_header_len" in e[0] else "w" for e in seq]
+            if kinds != ["w", "w", "hl", "w", "w"]:
+                ob.fail("violation", f"a successful Header::write does not write magic, version, length, dict, padding+newline (sequence {kinds}): the header is not newline-terminated / not aligned on that path")
+                continue
+            a = [show(e[1][1]) for e in seq]
+            if "promoted" not in a[0] or "to_header_bytes" not in a[1] or not ("to_string" in a[3] or "dict_text" in a[3]):
+                ob.fail("violation", "Header::write does not write magic, version bytes and the dict text in this order")
+            last = a[4]
+            nl_push = "push!mut0(std::vec::from_elem::<u8>(32," in last and any(e[0].endswith("Vec::<u8>::push") and show(e[1][1]) == "10" for e in p.state.events)
+            nl_store = "from_elem::<u8>(32," in last and re.search(r"store[^;]*, 10\)", last) is not None
+            if not (nl_push or nl_store):
+                ob.fail("inconclusive", "the form of the padding write is not recognised (expected: spaces then a newline byte): " + last[:160])
         s4 = mk()
         r, o = ob.run(q(s4, pre + ["(= (mod (+ 8 |hl_bytes| |L|) 64) 5)"]), "sat", 30)
         ob.d["nonvacuous"] = r == "sat" and nvc > 0
@@ -927,6 +945,9 @@ def task_read_array_wiring(scratch, tier, seed, logdir):
                 if not (i_h and i_v and i_n and i_h[0] < i_v[0] < i_n[0]):
                     ob.fail("violation", "read_array does not do header -> values -> Array::new in this order")
                     continue
+                early = [e for e in p.state.events[:i_v[0]] if re.search(r"with_capacity|from_elem|reserve", e[0]) and "Header::read" in " ".join(show(a) for a in e[1])]
+                if early:
+                    ob.fail("violation", "memory is allocated from the declared (untrusted) shape before any value is read: " + early[0][0][:80])
                 hv = p.state.events[i_v[0]]
                 if "Header::read" not in show(hv[1][1]) and "reader" not in show(hv[1][1]):
                     ob.fail("violation", "the value loop does not continue on the reader the header was read from")
@@ -945,6 +966,57 @@ def task_read_array_wiring(scratch, tier, seed, logdir):
             ob.fail("inconclusive", "no path constructs the array")
         ob.d["nonvacuous"] = oks > 0
         ob.d["queries"] += len(paths)
+    except (LookupError, ValueError, RuntimeError, KeyError, IndexError) as e:
+        ob.fail("inconclusive", f"translator: {type(e).__name__}: {e}")
+    return [ob.done()]
+
+
+def task_spectrum_read_wiring(scratch, tier, seed, logdir):
+    """C07: read::Builder::read hands the bytes it read, all of them and unchanged, to the reader of
+    the detected (or forced) format; text::read_scs = header line, then everything else, then parse."""
+    fns = fns_for(scratch, "sfs-core")
+    ob = Ob("spectrum_read_wiring", ["spectrum::io::read::Builder::read", "spectrum::io::text::read_scs"], "every path of the two functions; calls uninterpreted")
+    try:
+        f = mir.find_fn(fns, r"io/read\.rs>::read$", params=["Builder"])
+        paths = mir.Exec(f, [], max_paths=5000).run({"_1": V("self", "U")})
+        n = 0
+        for p in paths:
+            if p.end != "return":
+                continue
+            r = show(p.ret)
+            rd = [e for e in p.state.events if re.search(r"read_npy|read_scs", e[0])]
+            if not rd:
+                continue
+            n += 1
+            arg = show(rd[0][1][0])
+            # the slice given to the format reader is raw[..] of the buffer filled by read_to_end
+            if not re.fullmatch(r"<Vec<u8> as Index<RangeFull>>::index\(<.* as std::io::Read>::read_to_end!mut1\(.*, Vec::<u8>::new\(\)\), RangeFull\)", arg):
+                ob.fail("violation", "the format reader does not get exactly the bytes that were read (raw[..]): " + arg[:200])
+            if rd[0][0] not in r:
+                ob.fail("violation", "the result of the format reader is not what is returned")
+        if n < 4:
+            ob.fail("inconclusive", f"only {n} reader paths found (expected npy/text x file/stdin)")
+        ob.d["nonvacuous"] = n >= 4
+        ob.d["queries"] += len(paths)
+        g = mir.find_fn(fns, r"^read_scs$", params=["&mut R"])
+        okp = 0
+        for p in mir.Exec(g, [], max_paths=2000).run({"_1": ("ref", "$r"), "$r": V("reader", "U")}):
+            if p.end != "return":
+                continue
+            names = [e[0] for e in p.state.events]
+            if any(re.search(r"parse_scs$", x) for x in names):
+                okp += 1
+                ih = [i for i, x in enumerate(names) if re.search(r"Header::read", x)]
+                ir = [i for i, x in enumerate(names) if re.search(r"Read>::read_to_string|read_to_string", x)]
+                ipz = [i for i, x in enumerate(names) if re.search(r"parse_scs$", x)]
+                if not (ih and ir and ih[0] < ir[0] < ipz[0]):
+                    ob.fail("violation", "text::read_scs is not header line -> read_to_string(the rest) -> parse_scs: " + str([x[-40:] for x in names]))
+                    continue
+                pe = p.state.events[ipz[0]]
+                if "read_to_string!mut1" not in show(pe[1][0]) or "Header::read" not in show(unq(pe[1][1])):
+                    ob.fail("violation", "parse_scs is not given the remaining text and the header's shape")
+        if okp == 0:
+            ob.fail("inconclusive", "no path of read_scs reaches parse_scs")
     except (LookupError, ValueError, RuntimeError, KeyError, IndexError) as e:
         ob.fail("inconclusive", f"translator: {type(e).__name__}: {e}")
     return [ob.done()]
@@ -1026,6 +1098,7 @@ TASKS = {
     "fold_run": task_fold_run,
     "read_array_wiring": task_read_array_wiring,
     "main_exit": task_main_exit,
+    "spectrum_read_wiring": task_spectrum_read_wiring,
     "shape_closures": task_shape_closures,
 }
 
